@@ -611,7 +611,51 @@ func ruleFreshRows(p *Prog, r *Result) {
 			})
 		}
 	}
+	// rows kept by the sort: what is pushed on the heap is allocated per row, never a slot of a buffer the plan owns
+	if ot := p.Named("FinalOrderPlan"); ot != nil {
+		for _, fn := range p.staticClosureOfMethods(ot) {
+			idx := 0
+			allInstrs(fn, func(in ssa.Instruction) {
+				c, ok := in.(*ssa.Call)
+				if !ok {
+					return
+				}
+				g := c.Call.StaticCallee()
+				if g == nil || p.qualName(g) != "container/heap.Push" || len(c.Call.Args) < 2 {
+					return
+				}
+				n++
+				idx++
+				v := stripConv(c.Call.Args[1])
+				bad := ""
+				if ia, ok := v.(*ssa.IndexAddr); ok {
+					for root := range sliceRoots(ia.X) {
+						if _, f, _, ok := loadedField(root); ok {
+							bad = "the row pushed on the heap is a slot of the plan's buffer (field " + f + "), which the next child batch overwrites while the heap still holds it"
+						}
+					}
+				}
+				r.add(bad == "", fmt.Sprintf("%s|heap-push#%d", p.FName(fn), idx), p.InstrPos(c), firstNonEmpty(bad, "the pushed row is not a slot of a plan-owned buffer"))
+			})
+		}
+	}
 	r.floor("row slices placed into returned row sets", n, 4)
+}
+
+// staticClosureOfMethods: the methods of t and the package functions they call statically (2 levels).
+func (p *Prog) staticClosureOfMethods(t *types.Named) []*ssa.Function {
+	seen := map[*ssa.Function]bool{}
+	var out []*ssa.Function
+	for _, m := range p.methodsOf(t) {
+		for _, f := range p.staticClosure(m, 2, nil) {
+			if !seen[f] {
+				seen[f] = true
+				out = append(out, f)
+			}
+		}
+	}
+	sort.Slice(out, func(i, j int) bool { return p.FName(out[i]) < p.FName(out[j]) })
+	return out
 }
 
 func isRowType(t types.Type) bool {
@@ -1827,6 +1871,51 @@ func ruleRegionSticky(p *Prog, r *Result) {
 				}
 			}
 			r.add(guarded, fmt.Sprintf("%s.%s|guard", tn, mn), p.InstrPos(fetch), "every Cursor.Next is dominated by the test that the scan has not left its region yet")
+			// (d) set only where the region (or the cursor) ended: a full batch is not the end of the scan
+			n++
+			early := ""
+			allInstrs(fn, func(in ssa.Instruction) {
+				st, ok := in.(*ssa.Store)
+				if !ok {
+					return
+				}
+				o, fl, _, ok := fieldOfAddr(st.Addr)
+				if !ok || o != t || fl != flagField {
+					return
+				}
+				if bv, isB := constBool(st.Val); !isB || !bv {
+					return
+				}
+				ended := false
+				for _, a := range dominatingAtoms(st.Block()) {
+					// fetched key == nil
+					if a.Op == token.EQL && isNilConst(a.Y) {
+						if ex, ok := a.X.(*ssa.Extract); ok && ex.Tuple == ssa.Value(fetch) {
+							ended = true
+						}
+					}
+					// region test on the fetched key
+					if c, ok := a.X.(*ssa.Call); ok {
+						switch p.calleeName(&c.Call) {
+						case "bytes.Compare", "bytes.HasPrefix":
+							ended = true
+						default:
+							if h := c.Call.StaticCallee(); h != nil && p.InPkg(h) {
+								if _, _, ok := p.predicateCore(h, "bytes.Compare"); ok {
+									ended = true
+								}
+								if _, _, ok := p.predicateCore(h, "bytes.HasPrefix"); ok {
+									ended = true
+								}
+							}
+						}
+					}
+				}
+				if !ended {
+					early = p.InstrPos(st)
+				}
+			})
+			r.add(early == "", fmt.Sprintf("%s.%s|only-at-end", tn, mn), p.Pos(fn.Pos()), firstNonEmpty(map[bool]string{true: "the region flag is set at " + early + " although neither the cursor nor the region ended there (a full batch is not the end of the scan): every later call returns nothing"}[early != ""], "the region flag is set only where the cursor or the region ended"))
 			// (c) never set back here
 			n++
 			reset := ""
